@@ -228,6 +228,9 @@ def remove (s : MState) (f : Nat) : MState :=
       infos := adel s.infos f
       fuzzy := aretainDrop s.fuzzy (lastSeg i.path) (fun x => x ≠ f) }
 
+/-- `LuaIndex::clear` (`id_counter`, patterns, workspaces are not touched) -/
+def clear (_ : MState) : MState := { nodes := [([], [])], infos := [], fuzzy := [] }
+
 /-- the descent of `add_module_by_module_path`: create the missing nodes along the path -/
 def ensurePrefixes (nodes : List (MPath × List Nat)) (acc : MPath) : List Seg → List (MPath × List Nat)
   | [] => nodes
@@ -346,6 +349,7 @@ inductive Op where
   | addMod (f : Nat) (modPath : List Char) (ws : Nat)
   | remove (f : Nat)
   | hide (f : Nat) (b : Bool)
+  | clear
 deriving Repr
 
 def step (cfg : Config) (s : MState) : Op → MState
@@ -353,6 +357,7 @@ def step (cfg : Config) (s : MState) : Op → MState
   | .addMod f mp ws => addModule cfg.fuzzy s f mp ws
   | .remove f => remove s f
   | .hide f b => setHidden s f b
+  | .clear => clear s
 
 def run (cfg : Config) (ops : List Op) : MState := ops.foldl (step cfg) MState.new
 
@@ -372,6 +377,7 @@ def specStep (cfg : Config) (live : List Info) : Op → List Info
   | .addMod f mp ws => specAddMod live f mp ws
   | .remove f => specRemove live f
   | .hide f b => live.map fun i => if i.file = f then { i with hidden := b } else i
+  | .clear => []
 
 def specLive (cfg : Config) (ops : List Op) : List Info := ops.foldl (specStep cfg) []
 
